@@ -24,10 +24,12 @@ const (
 
 func (api *API) mapEncode(ctx context.Context, value reflect.Value, ts TypeSettings, opts *options) (ele any, err error) {
 	// a value that is nested deeper than MapDecode accepts is not encoded either (see encode)
-	if opts.encodeDepth++; opts.encodeDepth > maxEncodeDepth {
-		return nil, ierrors.Errorf("exceeded the maximum nesting depth of %d", maxEncodeDepth)
+	if countsAsNestingLevel(value.Type()) {
+		if opts.encodeDepth++; opts.encodeDepth > maxDecodeDepth {
+			return nil, ierrors.Errorf("exceeded the maximum nesting depth of %d", maxDecodeDepth)
+		}
+		defer func() { opts.encodeDepth-- }()
 	}
-	defer func() { opts.encodeDepth-- }()
 
 	valueI := value.Interface()
 	valueType := value.Type()
